@@ -17,7 +17,7 @@ from .. import common
 from ..common import enc_str
 
 BUILTIN = ["mpilot.libraries.eems.basic", "mpilot.libraries.eems.csv", "mpilot.libraries.eems.netcdf", "mpilot.libraries.eems.fuzzy"]
-USER_MODULES = ["ulib", "ulib_extra", "ulib.sub", "ulib.sub.deep", "ulibx", "vlib", "vlib.a", "vlib.b", "vlib.a.x.y"]
+USER_MODULES = ["ulib", "ulib_extra", "ulib.sub", "ulib.sub.deep", "ulibx", "vlib", "vlib.a", "vlib.b", "vlib.a.x.y", "ulib_sub", "vlibxa", "ulibXsub.deep"]
 USER_LIBS = ["ulib", "ulib_extra", "ulibx", "vlib", "ulib.sub", "vlib.a"]
 NAMES = ["Alpha", "Beta", "Gamma", "Sum", "EEMSRead"]
 
@@ -127,8 +127,11 @@ DISK_FILES = {
     "dlib_more.py": ("dlib_more", "Gamma"), "dlibx.py": ("dlibx", "Delta"), "dpack/__init__.py": ("dpack", "Zeta"), "dpack/sub.py": ("dpack.sub", "Eta"),
     "dpack/sub2.py": ("dpack.sub2", "Alpha"), "dpack/inner/__init__.py": None, "dpack/inner/deep.py": ("dpack.inner.deep", "Theta"),
     "dpack_more/__init__.py": None, "dpack_more/inner.py": ("dpack_more.inner", "Iota"), "dpack_more/nested/__init__.py": None, "dpack_more/nested/leaf.py": ("dpack_more.nested.leaf", "Kappa"),
+    # names that differ from a dotted library name only in the character at the place of the dot
+    "dpack_sub.py": ("dpack_sub", "Lambda"), "dpackXsub/__init__.py": None, "dpackXsub/m.py": ("dpackXsub.m", "Mu"), "dlib_extraZinner.py": ("dlib_extraZinner", "Nu"),
 }
-DISK_LIBS = ["dl", "dlib", "dlib_extra", "dlib_more", "dlibx", "dpack", "dpack.sub", "dlib_extra.inner", "dpack.inner", "dpack_more", "dpack_more.nested"]
+DISK_LIBS = ["dl", "dlib", "dlib_extra", "dlib_more", "dlibx", "dpack", "dpack.sub", "dlib_extra.inner", "dpack.inner", "dpack_more", "dpack_more.nested", "dpack_sub", "dpackXsub", "dlib_extraZinner"]
+MISSING_LIBS = ["no_such_library", "dpack.no_such_module"]
 
 DISK_RUNNER = r'''
 import sys, json
@@ -178,12 +181,17 @@ def disk_histories(ctx, scratch):
             [["dpack"], ["dpack_more"], ["dpack_more.nested"], ["dlib_extra"], ["dlib"]], [["dlib", "dpack"], ["dpack_more", "dpack"], ["dpack_more"]],
             # a request refused for a duplicate command is refused again when repeated (and again after other requests)
             [["dlib", "dpack"], ["dlib", "dpack"], ["dlib"], ["dlib", "dpack"]], [BUILTIN[1:3], BUILTIN[1:3], [BUILTIN[1]], BUILTIN[1:3]],
-            [["dlib"], ["dlib_extra", "dlib_more"], ["dlib"]], [[], ["dlib"], []], ["default", [], ["dlib"], "default"], [["dpack"], ["dpack.sub"], ["dlib_extra.inner"], ["dlib_extra"]]]
+            [["dlib"], ["dlib_extra", "dlib_more"], ["dlib"]], [[], ["dlib"], []],
+            # a dot in a library name is a dot
+            [["dpack_sub"], ["dpackXsub"], ["dpack.sub"], ["dpack_sub", "dpack.sub"]], [["dlib_extraZinner"], ["dlib_extra.inner"]], [["dpack_sub", "dpackXsub", "dlib_extraZinner"], ["dpack.sub", "dlib_extra.inner"]],
+            # a request that fails because one of its libraries cannot be imported leaves nothing behind: later requests get what they name
+            [["no_such_library", "dlib"], ["dlib"]], [["dlib_extra", "no_such_library", "dpack"], ["dpack"], ["dlib_extra"], ["dlib_extra", "dpack"]],
+            [["dpack.no_such_module", "dlib_more"], ["dlib_more", "dl"], ["dpack.no_such_module", "dlib_more"], ["dlib_more"]], ["default", [], ["dlib"], "default"], [["dpack"], ["dpack.sub"], ["dlib_extra.inner"], ["dlib_extra"]]]
     for _ in range(ctx.budget(8, 200)):
         seq = []
         for _ in range(rng.randrange(2, 7)):
             r = rng.random()
-            seq.append([] if r < 0.1 else "default" if r < 0.15 else rng.sample(DISK_LIBS + BUILTIN[:1], rng.randrange(1, 4)))
+            seq.append([] if r < 0.1 else "default" if r < 0.15 else rng.sample(DISK_LIBS + BUILTIN[:1] + (MISSING_LIBS if r > 0.85 else []), rng.randrange(1, 4)))
         seqs.append(seq)
     for seq in seqs:
         code = DISK_RUNNER.replace("SCRATCH", repr(scratch)).replace("LIBDIR", repr(libdir)).replace("REQUESTS", repr(json.dumps(seq)))
@@ -195,6 +203,11 @@ def disk_histories(ctx, scratch):
             continue
         outs = json.loads(p.stdout.strip().split("\n")[-1])
         for k, (libs, o) in enumerate(zip(seq, outs)):
+            if libs != "default" and any(l in MISSING_LIBS for l in libs):
+                ctx.count("disk_requests_naming_a_missing_library")
+                if o[0] == "ok":
+                    ctx.fail("request %d %r names a library that cannot be imported but was accepted" % (k, libs), {"requests": seq, "got": o[1][:8]})
+                continue
             want = expected(libs)
             names = [x.split("=")[0] for x in want]
             ctx.count("disk_requests")
